@@ -52,7 +52,15 @@ def digest(obj):
 # --------------------------------------------------------------- findings
 
 def load_findings(pid):
-    path = os.path.join(ROOT, 'known_findings.jsonl')
+    """Entries of known_findings.txt that concern property `pid`.
+
+    Line format (one finding per line, '#' starts a comment line):
+        known: property=<id> <what fails> :: {json}
+        fixed: property=<id> <commit> <what failed> :: {json}
+    json: id, properties (all properties the defect touches), witness
+    (replay file), avoid (generator switches), buckets (failure buckets the
+    finding explains).  The file is never written at run time."""
+    path = os.path.join(ROOT, 'known_findings.txt')
     out = []
     if os.path.exists(path):
         with open(path) as f:
@@ -60,8 +68,18 @@ def load_findings(pid):
                 line = line.strip()
                 if not line or line.startswith('#'):
                     continue
-                e = json.loads(line)
-                props = e.get('properties') or [e.get('property')]
+                head, _, js = line.partition(' :: ')
+                state, _, rest = head.partition(': ')
+                e = json.loads(js) if js else {}
+                e['state'] = state.strip()
+                words = rest.split(' ', 2 if e['state'] == 'fixed' else 1)
+                e['property'] = words[0].split('=', 1)[1]
+                if e['state'] == 'fixed':
+                    e['commit'] = words[1]
+                    e['what'] = words[2] if len(words) > 2 else ''
+                else:
+                    e['what'] = words[1] if len(words) > 1 else ''
+                props = e.get('properties') or [e['property']]
                 if pid in props:
                     out.append(e)
     return out
@@ -104,6 +122,12 @@ class Acc:
             self.inconclusive[inc] = self.inconclusive.get(inc, 0) + 1
         for f in res.get('failures', ()):
             b = f['bucket']
+            if os.environ.get('QV_DUMP_FAILURES'):
+                with open(os.environ['QV_DUMP_FAILURES'], 'a') as fh:
+                    fh.write(json.dumps({
+                        'bucket': b, 'detail': f.get('detail'),
+                        'text': (f.get('case') or {}).get('text')},
+                        default=repr) + '\n')
             if b in self.failures:
                 n, first = self.failures[b]
                 # keep the smallest failing case seen
@@ -147,6 +171,8 @@ def _shard_main(args):
     os.environ.setdefault('PYTHONHASHSEED', '0')
     acc = Acc()
     try:
+        from . import run as _X
+        _X.limit_memory()
         mod = importlib.import_module(modname)
         cfg = mod.configure(tier, set(avoid))
         if os.environ.get('QV_EXAMPLES'):
